@@ -204,6 +204,11 @@ theorem applyH_statesOk (w : World) (g2 : Good2 w.fs) (tk : TagsOk w) (sk : Stat
     · exact keep en hen
     · simp only [killProc, List.mem_filter] at hen
       exact keep en hen.1
+  | fault h op j =>
+    simp only [applyH] at hen
+    split at hen
+    · exact keep en hen
+    · exact keep en hen
 
 theorem playH_caches_from (evs : List HEv) :
     ∀ w, Good2 w.fs → TagsOk w → StatesOk w →
